@@ -384,9 +384,11 @@ def run_history(ctx, variant, n, lim, plus, steps, save_at, record):
                 checks.append({"k": k, "cfg": cfg, "sig": sig, "avg": avg, "qavg": qavg, "pasts": pasts, "next": None, "scale": scale})
             break
         if save_at == k:
-            with tempfile.TemporaryDirectory(dir=str(ctx.work)) as td:
-                m.save(Path(td))
-                twin = GameRegretMinimizer.load(Path(td))
+            # the checkpoint directory stays on disk while the loaded copy is used (as in a real session)
+            saved_dir = Path(tempfile.mkdtemp(dir=str(ctx.work)))
+            m.save(saved_dir)
+            saved_state = (np.array(m.cumulative_regret, copy=True), np.array(m.cumulative_strategy, copy=True), m.iteration)
+            twin = GameRegretMinimizer.load(saved_dir)
             if not (np.array_equal(twin.cumulative_regret, m.cumulative_regret) and np.array_equal(twin.cumulative_strategy, m.cumulative_strategy)
                     and twin.iteration == m.iteration and twin.plus == m.plus
                     and np.array_equal(twin.meta_rank_to_id, m.meta_rank_to_id)
@@ -407,6 +409,13 @@ def run_history(ctx, variant, n, lim, plus, steps, save_at, record):
                                      and np.array_equal(twin.cumulative_strategy, m.cumulative_strategy, equal_nan=True)
                                      and twin.iteration == m.iteration):
             fails.append(f"saved-then-loaded minimiser diverges from the original at step {k} (saved at {save_at})")
+        if twin is not None and save_at == k:
+            # using a loaded copy must not change the checkpoint: loading it again gives the saved state
+            again = GameRegretMinimizer.load(saved_dir)
+            if not (np.array_equal(again.cumulative_regret, saved_state[0], equal_nan=True)
+                    and np.array_equal(again.cumulative_strategy, saved_state[1], equal_nan=True) and again.iteration == saved_state[2]):
+                fails.append(f"iterating a loaded minimiser changed the saved checkpoint (saved at iteration {k}): a second load differs from what was saved")
+            del again
         nxt = snapshot(m)
         if finite:
             checks.append({"k": k, "cfg": cfg, "sig": sig, "avg": avg, "qavg": qavg, "pasts": pasts, "next": nxt, "scale": scale})
